@@ -769,6 +769,12 @@ class UndecidedValue:
     def __ne__(self, o):
         return not self.__eq__(o)
 
+    def _arith(self, *a):
+        # |x| - c, -x ... of an undecided value stay undecided (only a later comparison consults the context)
+        return UndecidedValue(f"f({self.what})")
+
+    __add__ = __radd__ = __sub__ = __rsub__ = __mul__ = __rmul__ = __neg__ = __abs__ = _arith
+
     def _ord(self, o):
         if CTX is not None and hasattr(CTX, "decide_undecided_order"):
             return CTX.decide_undecided_order(f"{self.what} <=> {o!r}")
